@@ -26,7 +26,7 @@ open AdaptaVerif.Check.RouteRect (P Rect lerp StrictlyInside segHitsOpenRect rou
     `legal`) from the initial router: after a final `processTransaction()` the router shows (`view`:
     active obstacles with polygon/position, connector end vertices) exactly the abstract scene obtained
     by applying every edit immediately, one by one; and nothing is left queued. -/
-theorem queue_refines_scene (ops : List Op) (hl : legalRun init ops = true) :
+theorem queue_refines_scene (ops : List Op) (hl : LegalHistory ops) :
     view (processTransaction (run init ops)).scene = applyOps AScene.empty ops ∧
       (processTransaction (run init ops)).queue = [] := by
   obtain ⟨hi, he⟩ := run_spec init ops inv_init hl
@@ -50,7 +50,7 @@ def demoOps : List Op :=
     .moveRel true 3 1 1, .moveAbs true 3 [⟨60, 60⟩] false,
     .processTransaction, .processTransaction ]
 
-example : legalRun init demoOps = true := by decide
+example : LegalHistory demoOps := by decide
 
 /-- the general form: from ANY state satisfying the queue invariant (in particular any state reached
     by legal calls, `run_spec`), for any legal continuation -/
